@@ -619,6 +619,7 @@ pub fn run_pool(
                         Err(mpsc::RecvTimeoutError::Timeout) => {
                             let _ = wp.child.kill();
                             let _ = wp.child.wait();
+                            remove_worker_scratch(wp.child.id(), &envs);
                             w = None;
                             Some(WorkerOutcome::Timeout)
                         }
@@ -631,6 +632,7 @@ pub fn run_pool(
                         // worker died
                         let mut wp = w.take().unwrap();
                         let status = wp.child.wait().ok();
+                        remove_worker_scratch(wp.child.id(), &envs);
                         std::thread::sleep(Duration::from_millis(20));
                         let tail = wp.stderr_tail.lock().unwrap().clone();
                         let tail: String = tail
@@ -666,6 +668,25 @@ pub fn run_pool(
     }
     if got != n {
         die(&format!("worker pool lost results: {got} of {n}"));
+    }
+}
+
+/// A worker that was killed or died cannot drop its `Scratch`: remove `memvid-verif.*.<pid>`.
+fn remove_worker_scratch(pid: u32, envs: &[(String, String)]) {
+    let base = envs
+        .iter()
+        .find(|(k, _)| k == "VERIF_SCRATCH")
+        .map(|(_, v)| v.clone())
+        .or_else(|| std::env::var("VERIF_SCRATCH").ok())
+        .unwrap_or_else(|| "/dev/shm".to_string());
+    let suffix = format!(".{pid}");
+    if let Ok(rd) = std::fs::read_dir(&base) {
+        for e in rd.flatten() {
+            let n = e.file_name().to_string_lossy().to_string();
+            if n.starts_with("memvid-verif.") && n.ends_with(&suffix) {
+                let _ = std::fs::remove_dir_all(e.path());
+            }
+        }
     }
 }
 
